@@ -683,6 +683,13 @@ class TrackLetter(_Unary):
     def _args_repr(self):
         return f"letter={self.letter}" + ("" if self.two_way else ",one_way") + ("" if self.ignore_parent else "+keep_parent")
 
+    def is_two_way(self, comb_class):
+        # the child refines the parent: the parent's enumeration does not determine the child's
+        return False
+
+    def is_reversible(self, comb_class):
+        return False
+
     def child(self, c):
         if c.tracked or c.just_prefix:
             return None
@@ -1105,6 +1112,10 @@ def selfcheck_rule(strategy, c, nmax=5):
                 raise WorldBug(f"ForgetMark on {c} is wrong at n={n}")
         return
     params = strategy.extra_parameters(c, children)
+    if strategy.is_reversible(c) or strategy.is_two_way(c):
+        for ch, pm in zip(children, params):
+            if set(ch.extra_parameters) - set(pm.values()):
+                raise WorldBug(f"{strategy} claims to be reversible / two-way on {c} but child {ch} has a statistic no parent statistic maps to")
     if len(params) != len(children):
         raise WorldBug(f"{strategy} on {c}: {len(params)} parameter maps for {len(children)} children")
     if truth_empty(c) != c.is_empty():
